@@ -13,7 +13,7 @@ Oracle (no model): exit status non-zero when the signal arrived before the build
                of a clean build.
 """
 import concurrent.futures as cf
-import os, signal, subprocess, time
+import json, os, signal, subprocess, time
 from checks import _walker as W
 
 PROPERTY = "C18"
@@ -52,6 +52,147 @@ def expected_outputs(n, edges):
     for i in range(n):
         out[i] = "".join(out[d] for d in ins[i]) + f"t{i}\n"
     return out
+
+
+SHELLS = ("sh", "dash", "bash", "ash", "ksh", "zsh")
+
+
+def session_procs(sid):
+    """live (non-zombie) processes whose session id is `sid`: grog is started with start_new_session, so these are exactly
+    the processes grog left behind (target shells, their children, ...) unless they detached themselves on purpose"""
+    out = []
+    for p in os.listdir("/proc"):
+        if not p.isdigit():
+            continue
+        try:
+            st = open(f"/proc/{p}/stat").read()
+            rp = st.rindex(")")
+            comm = st[st.index("(") + 1:rp]
+            f = st[rp + 2:].split()
+            if int(f[3]) == sid and f[0] != "Z":
+                out.append((int(p), comm, int(f[1])))
+        except (OSError, ValueError, IndexError):
+            pass
+    return out
+
+
+def kill_session(sid):
+    for pid, _, _ in session_procs(sid):
+        try:
+            os.kill(pid, signal.SIGKILL)
+        except OSError:
+            pass
+
+
+def tree_snapshot(*roots):
+    snap = {}
+    for r in roots:
+        for d, _, files in os.walk(r):
+            for f in files:
+                pth = os.path.join(d, f)
+                try:
+                    st = os.stat(pth)
+                    snap[pth] = (st.st_size, st.st_mtime_ns)
+                except OSError:
+                    pass
+    return snap
+
+
+def survivor_case(ctx, idx, variant, sig):
+    """one target whose shell records its pid ($$) and then runs a long foreground child; grog is interrupted while the child
+    runs. variant: plain (`sleep 60`), trap (`trap '...' TERM INT` + 2.5 s child, then writes its output), ignore (`trap '' TERM INT`).
+    After grog's exit: the target shell must be gone, nothing may be written into the workspace or the cache any more, and the
+    next build must get the workspace lock and finish. A grandchild that merely outlives its killed shell (the orphaned `sleep`)
+    is the documented limitation and is not flagged — unless it keeps the next build from getting the lock."""
+    d = ctx.scratch(f"c18-surv-{idx}")
+    ws_dir, root = os.path.join(d, "ws"), os.path.join(d, "root")
+    os.makedirs(os.path.join(ws_dir, "pkg"))
+    os.makedirs(root)
+    pids, flag = os.path.join(d, "pids"), os.path.join(d, "flag")
+    open(os.path.join(ws_dir, "grog.toml"), "w").write("num_workers = 2\n")
+    pre = {"plain": "", "trap": "trap 'rm -f step.tmp' TERM INT; ", "ignore": "trap '' TERM INT; "}[variant]
+    child = "sleep 60" if variant == "plain" else "sleep 2.5"
+    cmd = (f'{pre}echo "p 0 $$" >> {pids}; touch step.tmp; if test -f {flag}; then :; else {child}; fi; rm -f step.tmp; echo t0 > t0.out')
+    targets = [{"name": "t0", "command": cmd, "outputs": ["t0.out"]},
+               {"name": "t1", "command": "echo t1 > t1.out", "outputs": ["t1.out"]}]
+    json.dump({"targets": targets}, open(os.path.join(ws_dir, "pkg", "BUILD.json"), "w"))
+    env = dict(os.environ, GROG_ROOT=root, HOME=d, GROG_DISABLE_TEA="true")
+    env.pop("CI", None)
+    res = {"family": "survivor-" + variant, "variant": variant, "signal": sig.name, "workers": 2, "delay": 0.4, "finished_before": False, "bad": []}
+    bad = res["bad"]
+    grog = ctx.grog_binary()
+    p = subprocess.Popen([grog, "build", "//..."], cwd=ws_dir, env=env, stdout=subprocess.PIPE, stderr=subprocess.STDOUT, text=True, start_new_session=True)
+    sid = p.pid
+    t0 = time.time()
+    while not os.path.exists(pids) and time.time() - t0 < 15 and p.poll() is None:
+        time.sleep(0.02)
+    time.sleep(0.4)
+    shell_pid = None
+    if os.path.exists(pids):
+        shell_pid = int(open(pids).read().split()[2])
+    t_sig = time.time()
+    try:
+        os.kill(p.pid, sig)
+    except ProcessLookupError:
+        pass
+    try:
+        out, _ = p.communicate(timeout=30)
+    except subprocess.TimeoutExpired:
+        p.kill()
+        out, _ = p.communicate()
+        bad.append(("no-exit-after-signal", f"grog did not exit within 30 s after {sig.name}"))
+    res.update(rc=p.returncode, latency=round(time.time() - t_sig, 2), shell_pid=shell_pid, interrupted=True)
+    if shell_pid is None:
+        bad.append(("harness-target-did-not-start", f"the target shell never wrote its pid: {out[-300:]}"))
+    if p.returncode == 0:
+        bad.append(("interrupt-exit-zero", f"build interrupted by {sig.name} while its target was running exited 0"))
+    if res["latency"] > 5.0:
+        bad.append(("interrupt-slow-exit", f"grog exited {res['latency']} s after {sig.name} (bound 5 s)"))
+    # (a) what is left of grog's session shortly after its exit
+    time.sleep(0.5)
+    left = session_procs(sid)
+    res["left_behind"] = [(comm, "target-shell" if pid == shell_pid else "other") for pid, comm, _ in left]
+    shells = [(pid, comm) for pid, comm, _ in left if pid == shell_pid or comm in SHELLS]
+    if shells:
+        bad.append(("target-shell-survived-grog",
+                    f"{sig.name}: target shell(s) {shells} still run 0.5 s after grog exited (variant '{variant}': the script "
+                    f"{'traps' if variant == 'trap' else 'ignores' if variant == 'ignore' else 'does not handle'} TERM/INT)"))
+    res["orphaned_grandchildren"] = sorted(comm for pid, comm, _ in left if (pid, comm) not in shells)
+    # (c) nothing is written into the workspace or the cache after grog exited
+    snap1 = tree_snapshot(ws_dir, root)
+    time.sleep(1.0 if variant == "plain" else 3.2)
+    snap2 = tree_snapshot(ws_dir, root)
+    changed = sorted(os.path.relpath(k, d) for k in set(snap1) | set(snap2) if snap1.get(k) != snap2.get(k))
+    if changed:
+        bad.append(("written-after-grog-exited", f"files changed in the workspace / cache after grog had exited: {changed[:6]}"))
+    # (b) the next build gets the lock and finishes although the interrupted target's foreground child may still be alive
+    open(flag, "w").close()
+    t1 = time.time()
+    try:
+        q = subprocess.run([grog, "build", "//..."], cwd=ws_dir, env=env, capture_output=True, text=True, timeout=20)
+        rc2, out2 = q.returncode, q.stdout + q.stderr
+    except subprocess.TimeoutExpired as e:
+        rc2 = 124
+        out2 = (e.stdout.decode(errors="replace") if isinstance(e.stdout, bytes) else (e.stdout or "")) + "\nTIMEOUT"
+    res["b2"] = {"rc": rc2, "wall": round(time.time() - t1, 2)}
+    if rc2 == 124 or "Another grog build" in out2:
+        bad.append(("next-build-cannot-acquire-lock",
+                    f"the build after the interrupt {'did not finish within 20 s' if rc2 == 124 else 'had to wait for the lock'}: "
+                    f"'{next((l for l in out2.splitlines() if 'Another grog build' in l), out2[-200:])[:160]}' "
+                    f"(processes left behind by the interrupted build: {res['left_behind']})"))
+    elif rc2 != 0:
+        bad.append(("follow-up-build-failed", f"the build after the interrupt exited {rc2}: {out2[-300:]}"))
+    else:
+        pth = os.path.join(ws_dir, "pkg", "t0.out")
+        if not os.path.exists(pth) or open(pth).read() != "t0\n":
+            bad.append(("follow-up-outputs-wrong", "t0.out is missing or wrong after the follow-up build"))
+    if bad:
+        res["out"] = out[-1200:]
+        res["out2"] = out2[-600:]
+    kill_session(sid)
+    import shutil
+    shutil.rmtree(d, ignore_errors=True)
+    return res
 
 
 def signal_case(ctx, idx, seed):
@@ -95,6 +236,12 @@ def signal_case(ctx, idx, seed):
         bad.append(("no-exit-after-signal", f"grog did not exit within 30 s after {sig.name}"))
     rc = p.returncode
     time.sleep(0.3)     # let orphaned grandchildren (not covered by the property) write what they write
+    left = [(pid, comm) for pid, comm, _ in session_procs(p.pid) if comm in SHELLS]
+    if left:
+        time.sleep(0.3)
+        left = [(pid, comm) for pid, comm, _ in session_procs(p.pid) if comm in SHELLS]
+        if left:
+            bad.append(("target-shell-survived-grog", f"{sig.name}: target shell(s) {left} still run 0.6 s after grog exited"))
     tr = ws.read_trace()
     res.update(rc=rc, latency=round(latency, 2), finished_before=finished_before)
     started = {m: t for k, m, t in tr if k == "s"}
@@ -163,9 +310,12 @@ def run(ctx):
             c["cancelAfterEvents"] = rng.randint(0, 4)
             c["fail"] = []
         cases.append(c)
-    outs = W.run_impl(ctx, cases)
+    for c in cases:
+        c["timeoutMs"] = 6000          # Walk has to return promptly after the cancel; not returning for 6 s is a hang
+    outs = W.run_impl(ctx, cases, max_hangs=3)
     if outs is None:
         return
+    cases = cases[:len(outs)]
     reps = W.replay_model(ctx, cases, outs)
     disagreements, oracle_fail, cancelled = [], 0, 0
     lat = []
@@ -210,13 +360,18 @@ def run(ctx):
         nsig = 16 if quick else 150
         seeds = [rng.randrange(1 << 30) for _ in range(nsig)]
         with cf.ThreadPoolExecutor(max_workers=4) as ex:
-            for f in [ex.submit(signal_case, ctx, i, s) for i, s in enumerate(seeds)]:
+            futs = [ex.submit(survivor_case, ctx, i, v, sg) for i, (v, sg) in enumerate(
+                [(v, sg) for v in ("plain", "trap", "ignore") for sg in (signal.SIGINT, signal.SIGTERM)] * (1 if quick else 4))]
+            futs += [ex.submit(signal_case, ctx, i, s) for i, s in enumerate(seeds)]
+            for f in futs:
                 results.append(f.result())
         for r in results:
             for sig, msg in r["bad"]:
                 oracle_fail += 1
                 ctx.violation(msg, {"kind": "oracle", "oracle": "CLI signal run", "run": r}, signature=sig)
     ctx.coverage["cli_signal_runs"] = len(results)
+    ctx.coverage["cli_survivor_runs"] = {v: sum(1 for r in results if r.get("variant") == v) for v in ("plain", "trap", "ignore")}
+    ctx.coverage["cli_orphaned_grandchildren_seen"] = sorted({c for r in results for c in r.get("orphaned_grandchildren", [])})
     ctx.coverage["cli_interrupted"] = sum(1 for r in results if r.get("interrupted"))
     ctx.coverage["cli_signals"] = {s: sum(1 for r in results if r["signal"] == s) for s in ("SIGINT", "SIGTERM")}
     ctx.coverage["cli_latency_max_s"] = max([r["latency"] for r in results if not r["finished_before"]] or [0])
@@ -227,7 +382,8 @@ def run(ctx):
         len({(r["family"], r["signal"], r["workers"], int(r["delay"] * 10)) for r in results if r.get("interrupted")})
     ctx.coverage["rule"] = (f"{len(cases)} in-process walks with an external cancel after a random number of trace events (some with callbacks that ignore the cancel for "
                             f"1 s) + {len(results)} CLI builds of slow targets (0.2-0.8 s sleeps, chain/fan/diamond, 1/2/4 workers, optional directory output) hit by SIGINT or "
-                            "SIGTERM after 0..2.6 s, each followed by a second build; non-trivial = cancelled before Walk returned / interrupted before the build finished")
+                            "SIGTERM after 0..2.6 s, each followed by a second build; plus survivor runs (target shell records $$, long foreground child; scripts that do not handle / trap / "
+                            "ignore TERM+INT): shell gone after grog's exit, nothing written afterwards, next build gets the lock; non-trivial = cancelled before Walk returned / interrupted before the build finished")
     ctx.coverage["oracle_failures"] = oracle_fail
     ctx.coverage["disagreements"] = len(disagreements)
     for r in results[:3]:
